@@ -113,19 +113,25 @@ def scan(source: str, callback: callable):
             if notify(TokenType.Selector):
                 return
             state.reset()
-        elif scanner.eat(Chars.Colon) and not is_known_selector_colon(scanner, state):
-            # Colon could be one of the following:
-            # — property delimiter: `foo: bar`, must be in block context
-            # — variable delimiter: `$foo: bar`, could be anywhere
-            # — pseudo-selector: `a:hover`, could be anywhere (for LESS and SCSS)
-            # — media query expression: `min-width: 100px`, must be inside expression context
-            # Since I can’t easily detect `:` meaning for sure, we’ll update state
-            # to accumulate possible property name-value pair or selector
-            if state.property_start == -1:
-                state.property_start = state.start
-            state.property_end = state.end
-            state.property_delimiter = scanner.pos - 1
-            state.start = state.end = -1
+        elif scanner.eat(Chars.Colon):
+            if is_known_selector_colon(scanner, state):
+                # Consumed colon(s) are a part of current token
+                if state.start == -1:
+                    state.start = scanner.start
+                state.end = scanner.pos
+            else:
+                # Colon could be one of the following:
+                # — property delimiter: `foo: bar`, must be in block context
+                # — variable delimiter: `$foo: bar`, could be anywhere
+                # — pseudo-selector: `a:hover`, could be anywhere (for LESS and SCSS)
+                # — media query expression: `min-width: 100px`, must be inside expression context
+                # Since I can’t easily detect `:` meaning for sure, we’ll update state
+                # to accumulate possible property name-value pair or selector
+                if state.property_start == -1:
+                    state.property_start = state.start
+                state.property_end = state.end
+                state.property_delimiter = scanner.pos - 1
+                state.start = state.end = -1
         else:
             if state.start == -1:
                 state.start = scanner.pos
